@@ -211,7 +211,10 @@ Definition on {A} (o : option A) (f : A -> bool) : bool := match o with Some x =
 
 (* codes: 0..6 model/output disagreement per format (pretty festive compact json github sarif junit),
    7 the model decoder does not invert the model encoder on this report,
-   10..16 the observed document does not present every violation exactly once *)
+   10..16 the observed document does not present every violation exactly once,
+   17 the observed sarif document is internally inconsistent (ruleIndex / artifacts; theorem
+      c10_sarif_refs_consistent on the model's document), 18 the observed junit counts disagree with
+      the test cases listed *)
 Definition flag (code : nat) (ok : bool) : list nat := if ok then [] else [code].
 
 Definition model_mismatches (c : case) : list nat :=
@@ -233,7 +236,9 @@ Definition spec_failures (c : case) : list nat :=
   flag 12 (on (c_compact c) (fun d => multiset_eqb (map pos_only ks) (compact_keys d))) ++
   flag 14 (on (c_github c) (fun d => multiset_eqb ks (github_keys d) && multiset_eqb ks (pretty_keys (gd_pretty d)))) ++
   flag 15 (on (c_sarif c) (fun d => multiset_eqb ks (sarif_keys d))) ++
-  flag 16 (on (c_junit c) (fun d => multiset_eqb (map xml_key ks) (junit_keys d))).
+  flag 16 (on (c_junit c) (fun d => multiset_eqb (map xml_key ks) (junit_keys d))) ++
+  flag 17 (match c_sarif c with Some d => sarif_refs_consistent d | None => true end) ++
+  flag 18 (match c_junit c with Some d => junit_counts_consistent d | None => true end).
 
 (* flat result list: case index * 32 + code *)
 Fixpoint failing_codes (f : case -> list nat) (i : nat) (l : list case) : list nat :=
